@@ -383,6 +383,11 @@ impl<T: Qcow2IoOps> Qcow2Dev<T> {
                 drop(l2_table);
 
                 if compressed {
+                    // the new mapping has to be on disk before the reference
+                    // of the old clusters is dropped, otherwise a crash may
+                    // keep the old mapping with its clusters already freed
+                    self.call_fsync(0, usize::MAX, 0).await?;
+
                     // free clusters in original compressed mapping
                     // finally, this update needn't be flushed immediately,
                     // and can be update in ram
